@@ -187,7 +187,7 @@ def build_sim(case: dict, restart_path: str):
             sim.add_move(DisplacementMove(labels, Translation()), name="t")
         elif tab == "rot-mol":
             sim.add_move(DisplacementMove(labels, Rotation()), name="r")
-            sim.add_move(DisplacementMove(labels, Ball(0.2)), name="b", minimum_count=1)
+            sim.add_move(DisplacementMove(labels, Ball(0.2)), name="7", minimum_count=1)   # a name made of digits: JSON readers may hand it back as a number
         elif tab == "transrot-mol":
             sim.add_move(DisplacementMove(labels, TranslationRotation()), name="tr")
         elif tab == "compop":
